@@ -4,6 +4,7 @@ import (
 	"fmt"
 	"strings"
 	"testing"
+	"unicode/utf8"
 
 	"pgregory.net/rapid"
 	"verifharness/ev"
@@ -12,6 +13,42 @@ import (
 
 // The path alphabet used for sentences and mutations (tokens are atomic).
 var pathTokens = []string{"(", ")", "/", "|", "^", ".", "@type", "ex.a", "ex.b", " ", "#", "\v"}
+
+// aliasTokens are code points outside ASCII that a careless classifier takes for a character of the grammar: the
+// same low 7 or 8 bits as a significant ASCII character (c+0x80, c+0x100, c+0x2000), its full-width compatibility
+// form, Unicode spaces, and letters outside the IRI character class. None of them belongs to the path grammar.
+var aliasTokens = func() []string {
+	seen := map[rune]bool{}
+	var out []string
+	add := func(r rune) {
+		if r >= 0xa0 && !seen[r] && !(r >= 0xd800 && r <= 0xdfff) {
+			seen[r] = true
+			out = append(out, string(r))
+		}
+	}
+	for _, c := range " \t\n\r()/|^*.@ae" {
+		add(c + 0x80)
+		add(c + 0x100)
+		add(c + 0x2000)
+		if c > 0x20 {
+			add(0xff00 + c - 0x20)
+		}
+	}
+	for _, r := range []rune{0xa0, 0x1680, 0x2003, 0x202f, 0x205f, 0x3000, 0x200b, 0xe9, 0xdf, 0x3b1} {
+		add(r)
+	}
+	return out
+}()
+
+// compileAliasTokens is the sample of aliasTokens used by the end-to-end units (one compilation per string)
+var compileAliasTokens = []string{"\u00a0", "\u2009", "\u00de", "\u205e", "\uff5c", "\uff0f", "\u00a8", "\u3000"}
+
+func allPathTokens(full bool) []string {
+	if full {
+		return append(append([]string{}, pathTokens...), aliasTokens...)
+	}
+	return append(append([]string{}, pathTokens...), compileAliasTokens...)
+}
 
 type c16Case struct {
 	Text   string `json:"text"`
@@ -139,15 +176,18 @@ func tokenize(s string) []string {
 			}
 		}
 		if !matched {
-			toks = append(toks, s[i:i+1])
-			i++
+			_, w := utf8.DecodeRuneInString(s[i:])
+			toks = append(toks, s[i:i+w])
+			i += w
 		}
 	}
 	return toks
 }
 
 // singleEdits returns every single-token deletion, insertion and substitution.
-func singleEdits(s string) []string {
+func singleEdits(s string) []string { return singleEditsOver(s, allPathTokens(false)) }
+
+func singleEditsOver(s string, pathTokens []string) []string {
 	toks := tokenize(s)
 	seen := map[string]bool{}
 	var out []string
@@ -204,7 +244,7 @@ func genC16(t *rapid.T) c16Case {
 			break
 		}
 		pos := rapid.IntRange(0, len(toks)).Draw(t, "pos")
-		tok := pick(t, pathTokens, "tok")
+		tok := pick(t, allPathTokens(true), "tok")
 		switch rapid.IntRange(0, 2).Draw(t, "edit") {
 		case 0:
 			if pos < len(toks) {
